@@ -202,7 +202,8 @@ class Program:
         sp = b.get("span") or ""
         if not sp and b.get("root"):
             return self.body_file_line(b["root"])
-        return sp.replace("/repo/", "")
+        import facts
+        return sp.replace(facts.REPO.rstrip("/") + "/", "")
 
     def site_loc(self, key, line):
         fl = self.body_file_line(key)
